@@ -51,23 +51,26 @@ ASSUMPTIONS = [
     "single-threaded: to_exit status WAKE (cross-thread exit) is C14's",
 ]
 EVIDENCE_NOTES = [
-    "evl_backends_agree is proved for the sub-class SW of S (evl_backends_agree_partial / evl_sw_outcome): every "
-    "read-callback trigger WRITES to some context's peer (threshold >= 1, distinct trigger lines; chains, cycles, several "
-    "writers into one context, self-writes allowed); every other action (half-close, close, add, wake-up, write) is issued "
-    "before run() or from an idle phase (wake callback at quiescence), any number of phases, three descriptor kinds; no "
-    "scripted exit or shutdown; adds fitting hints_max_fd.  The specification fires, between two phases, the least fixpoint "
-    "of 'registered and threshold reached by the bytes written so far' (Kleene iteration, order-independent); each back-end's "
-    "fired set is justified (below the fixpoint) and closed at quiescence (above it), so each loop ends with the "
-    "specification's outcome.  The flat class (no triggers) is the special case.  NOT proved: scripts of S whose triggers "
-    "terminate a peer, add a context, shut the acting context down at its threshold, or wake the loop; for those the proved "
-    "part is evl_backends_agree_visit and the monitor checks agreement on every generated S script (190 per quick run incl. "
-    "20 flat and 30 SW ones; 2900 per thorough run); evl_backends_agree_refuted shows agreement fails outside S",
+    "evl_backends_agree is proved for the sub-class SWT of S (evl_backends_agree_partial / evl_swt_outcome): every "
+    "read-callback trigger WRITES to, HALF-CLOSES or CLOSES some context's peer, or WAKES the loop (threshold >= 1, distinct "
+    "trigger lines); a peer terminated from a callback gets all its callback-issued writes/terminators from one context "
+    "(S's single-source condition) and the trigger list is then in threshold order (as the drivers order it); every other "
+    "action (add, and again write / half-close / close / wake-up) is issued before run() or from an idle phase (wake "
+    "callback at quiescence), any number of phases, three descriptor kinds; no scripted exit or shutdown; adds fitting "
+    "hints_max_fd.  The specification fires, between two phases, the least fixpoint of 'registered and threshold reached by "
+    "the bytes written so far' (Kleene iteration, order-independent); a terminator is one more monotone fact (what reaches a "
+    "terminated peer is a prefix of its single source's action sequence).  A context whose peer is terminated while input is "
+    "pending is offered that input first by every back-end (EOF is only seen by reading behind the data): no divergence "
+    "there, the known class is unchanged.  SW (write-only triggers, any order: evl_backends_agree_sw) and the flat class are "
+    "special cases.  NOT proved (monitor-only): scripts of S with a trigger that shuts the ACTING context down at its "
+    "threshold, or a trigger that ADDS a context; for those the proved part is evl_backends_agree_visit and the monitor "
+    "checks agreement on every generated S script (220 per quick run incl. 20 flat, 30 SW and 30 SWT ones; 3200 per "
+    "thorough run); evl_backends_agree_refuted shows agreement fails outside S",
     "evl_read_called_when_pending is proved for the three back-ends; for poll modulo the double decrement of n for an fd "
     "reporting POLLIN and POLLHUP together: read in this pass, or the slot is untouched and the context is reported readable "
     "again by the next kernel call (examples poll_double_decrement_skips_one_pass, read_poll_second_alternative): a delay, "
-    "not a loss, hence no patch.  Not proved as a theorem: the bound on the delay (every pass that skips a ready slot closes "
-    "a higher slot, so a slot at index j is read after at most nfd-j passes); combined with an exit requested in the "
-    "skipping pass it falls in the racing-exit part of the known finding",
+    "not a loss, hence no patch; combined with an exit requested in the skipping pass it falls in the racing-exit part of "
+    "the known finding.  Bound on the delay (evl_poll_delay_step): a pass either reads the ready slot j or closes a context in a higher slot (the one counted twice), and nothing is appended in such a pass, so slot j is read after at most nfd-j passes (the per-pass statement is proved; the induction over passes is the stated consequence)",
     "class S as checked is narrower than DESIGN.md's sketch, because the real loops are order-sensitive in more ways: "
     "no scripted exit (the loop exits at quiescence), self-shutdown only once everything the script can send has been read, "
     "a peer terminated from a callback gets all its callback-issued writes from that same context, contexts <= hints_max_fd",
@@ -398,6 +401,19 @@ def generate(rng, tier):
             if ln.startswith("on "):
                 w = ln.split()
                 if w[3] != "write" or int(w[2]) < 1 or ln in seen:
+                    continue
+                seen.add(ln)
+            keep.append(ln)
+        c.lines = keep
+        cases.append(c)
+    # the sub-class SWT of S (triggers write / half-close / close peers / wake): evl_backends_agree_partial
+    for i in range(30 if quick else 300):
+        c = _gen_S(rng.fork("T%d" % i), "T-%d" % i, 16 if i % 2 else 5)
+        keep, seen = [], set()
+        for ln in c.lines:
+            if ln.startswith("on "):
+                w = ln.split()
+                if w[3] not in ("write", "hclose", "pclose", "wake") or int(w[2]) < 1 or ln in seen:
                     continue
                 seen.add(ln)
             keep.append(ln)
@@ -769,6 +785,9 @@ def tally(dist, case, lines):
     elif sc.cls == "S" and all(a[0] == "write" and b >= 1 for c, b, a in sc.trigs) and \
             len(set(sc.trigs)) == len(sc.trigs) and not any(a[0] in ("shut", "exit") for p in sc.phases for a in p):
         inc("class=S-sw")
+    elif sc.cls == "S" and all(a[0] in ("write", "hclose", "pclose", "wake") and b >= 1 for c, b, a in sc.trigs) and \
+            len(set(sc.trigs)) == len(sc.trigs) and not any(a[0] in ("shut", "exit") for p in sc.phases for a in p):
+        inc("class=S-swt")
     inc("contexts", len(sc.kinds))
     inc("pool=%d" % sc.pool)
     for k in sc.kinds.values():
@@ -805,8 +824,9 @@ MANIFEST = {
                    "context at most once, never calls back after close, clears exactly the still-registered contexts "
                    "once, exits once, reads every context the kernel reported; add / capacity-reject / remove leave "
                    "every other context's registration and data untouched; agreement of the back-ends is proved for the "
-                   "sub-class SW of S (read-callback triggers that write; everything else issued from idle phases) via a "
-                   "least-fixpoint specification, and refuted in general (known finding cross-shutdown).  Model tied to the code by running "
+                   "sub-class SWT of S (read-callback triggers that write to / half-close / close peers or wake the loop; "
+                   "everything else issued from idle phases) via a least-fixpoint specification, and refuted in general "
+                   "(known finding cross-shutdown).  Model tied to the code by running "
                    "the real loops on real pipes / socket pairs / loopback TCP and feeding the logged kernel reports to "
                    "the extracted model; independent life-cycle/accounting/agreement monitor."),
     "design_ref": "DESIGN.md section 6 / C13, section 5 row C13",
